@@ -950,6 +950,9 @@ def steps_unjson(steps: List[Dict[str, Any]]) -> List[Dict[str, Any]]:
     return out
 
 
+OP_NAMES = {"==": "eq", "!=": "ne", "<": "lt", "<=": "le", ">": "gt", ">=": "ge"}
+
+
 def oracle_e2e(ctx) -> None:
     """Real tables: scan(filter) with pruning vs. with prune_files_by_bounds replaced by the identity."""
     from datashard import create_table
@@ -1132,7 +1135,8 @@ def oracle_e2e(ctx) -> None:
                 continue
             if verdict == "differs":
                 differing += 1
-                ctx.violation("scan-differs:" + ",".join(sorted({str(v[0]) for v in flt.values()})),
+                # (operators spelled out: the replay file name is the key with punctuation flattened)
+                ctx.violation("scan-differs:" + ",".join(sorted({OP_NAMES.get(str(v[0]), str(v[0])) for v in flt.values()})),
                               f"scan with pruning differs from scan without for filter {flt!r}",
                               {"e2e": True, "schema": fields, "steps": steps_json(steps),
                                "filter": {k: [v[0], val_json(v[1])] for k, v in flt.items()},
